@@ -312,6 +312,10 @@ def run (s : St) (file : Option String) (body : List Stmt) : St :=
   let t := fixLast (stmts (pro (file.getD "") s) body)
   if file.isSome || t.exit.exiting then trapCallback t else t
 
+/-- the Runner fields the model's `run` writes by itself on every call (`pro`: exit, filename;
+    `fixLast`: lastExit) — compared with the regenerated table of `Runner.Run` in Props (`run_prologue_model`) -/
+def modelRunWrites : List String := ["exit", "filename", "lastExit"]
+
 /-- one `Run` of the whole file -/
 def runFile (name : String) (ss : List Stmt) (s : St) : St := run s (some name) ss
 
